@@ -1299,18 +1299,26 @@ class PyFat(object):
                                  f"a different size or FAT type.",
                                  errno=errno.EINVAL)
 
-        # write fat sector
-        self.fat = [0] * self.bpb_header["BPB_BytsPerSec"]
+        # write whole FAT, the device may contain old data
+        fat_entries = (self._fat_size * sector_size * 8) // fat_type
+        self.fat = [0] * fat_entries
         if fat_type == PyFat.FAT_TYPE_FAT12:
-            self.fat[0] = 0x0FF0 | (self.bpb_header["BPB_Media"] % 0xF)
+            self.fat[0] = 0x0F00 | self.bpb_header["BPB_Media"]
             self.fat[1] = PyFat.FAT12_SPECIAL_EOC
         elif fat_type == PyFat.FAT_TYPE_FAT16:
-            self.fat[0] = 0xFFF0 | (self.bpb_header["BPB_Media"] % 0xF)
+            self.fat[0] = 0xFF00 | self.bpb_header["BPB_Media"]
             self.fat[1] = 0xFFFF
         elif fat_type == PyFat.FAT_TYPE_FAT32:
-            self.fat[0] = 0x0FFFFFF0 | (self.bpb_header["BPB_Media"] % 0xF)
+            self.fat[0] = 0x0FFFFF00 | self.bpb_header["BPB_Media"]
             self.fat[1] = 0x0FFFFFFF
         self.flush_fat()
+        if fat_type == PyFat.FAT_TYPE_FAT12 and \
+                (self._fat_size * sector_size) % 3 == 2:
+            # Clear the half FAT12 entry at the end of the table, too
+            for i in range(number_of_fats):
+                self._write_data_to_address(
+                    b'\0', sector_size * (rsvd_sec_cnt +
+                                          (i + 1) * self._fat_size) - 1)
 
         self.__seek(len(self.bpb_header))
         self.__fp.write(boot_code)
@@ -1335,6 +1343,15 @@ class PyFat(object):
 
             self.__seek(512 + backup_offset)
             self.__fp.write(bytes(fsinfo))
+
+        if fat_type != PyFat.FAT_TYPE_FAT32:
+            # Fixed root directory, wipe old data
+            self._write_data_to_address(
+                b'\0' * (self.root_dir_sectors * sector_size),
+                self.root_dir_sector * sector_size)
+        else:
+            # Root directory cluster has been allocated above
+            self.flush_fat()
 
         self.parse_root_dir()
         vol_label_in_8_3 = EightDotThree(encoding=self.encoding)
